@@ -131,6 +131,8 @@ def _expr(draw, ty, depth, ivars, svars):
         if k == 1:
             return draw(st.sampled_from(["s0", "s1"] + svars + ["ss0.First()"]))
         v = draw(st.sampled_from(["v", "w", "x"]))
+        if draw(st.integers(0, 11)) == 0:
+            v = draw(st.sampled_from(["Count", "Where", "Sum", "First"]))  # a parameter spelled like an operator: operators go by NAME
         if k == 3 and draw(st.booleans()):
             # a lambda with a second, defaulted parameter (positional or keyword-only): the default is an expression like any other
             n_ = draw(st.sampled_from(["n", "k"]))
@@ -372,7 +374,10 @@ def check(case) -> Result:
         return r.fail(f"second application raised {type(e).__name__}: {e}")
     if ast.dump(again) != ast.dump(got):
         return r.fail(f"not idempotent: {_unp(got)} -> {_unp(again)}")
-    if expect is not None:
+    op_named_params = any(a.arg in OPS for lam in ast.walk(tree) if isinstance(lam, ast.Lambda) for a in lam.args.args)
+    if op_named_params:
+        r.labels.append("parameter-named-like-an-operator")  # python's scoping is not how a back end reads Op(...): no value comparison
+    if expect is not None and not op_named_params:
         try:
             val = pyeval.materialise(pyeval.evaluate(got, env))
         except Exception as e:
